@@ -1,4 +1,6 @@
 import Rtsp.Proofs.Pipeline.Log
+import Rtsp.Proofs.Pipeline.UdpOrder
+import Rtsp.Props.C14
 /-
 # C01 — end-to-end media delivery preserves packets, order and identity
 
@@ -111,18 +113,28 @@ theorem tcp_delivery_drained (cfg : Cfg) (kinds : List Bool) (es : List Event) (
     simpa [hd, hw, hq, hf] using h1.symm
   exact ⟨this, fun m f => by rw [this]⟩
 
-/-- **no_cross_media / identity (reliable transports).**  Every callback is a write: write number
+/-- **no_cross_media / identity (every transport).**  Every callback is a write: write number
 `d.wid` of the stream was made to the very media and format the callback is invoked for, and the packet
 handed to the callback is that packet — payload, marker, timestamp, sequence number and payload type
-identical — with the SSRC of that format. -/
-theorem no_cross_media (cfg : Cfg) (kinds : List Bool) (es : List Event) (r : Nat) (hr : r < kinds.length)
-    (ht : kinds[r] = false) : ∀ d ∈ (reader cfg kinds es r).cbs, IsWrite cfg (writesOf es) d := by
+identical — with the SSRC of that format; and that write was pushed to this reader (`acc`).  Over UDP this
+holds whatever the network loses, duplicates or reorders: the reorder receiver releases only datagrams it
+was given, to the callback of their own media and format. -/
+theorem no_cross_media (cfg : Cfg) (kinds : List Bool) (es : List Event) (r : Nat) (hr : r < kinds.length) :
+    ∀ d ∈ (reader cfg kinds es r).cbs, IsWrite cfg (writesOf es) d ∧ d ∈ (reader cfg kinds es r).acc := by
   intro d hd
   have hinv := invariant_reachable cfg kinds es r hr
-  have hu : (reader cfg kinds es r).udp = false := by rw [reader_udp cfg kinds es r hr]; exact ht
-  have hfl : d ∈ flight (reader cfg kinds es r) := List.mem_append_left _ hd
-  rw [← hinv.tcp_flow hu] at hfl
-  exact hinv.acc_log d (List.mem_filter.mp hfl).1
+  suffices hacc : d ∈ (reader cfg kinds es r).acc from ⟨hinv.acc_log d hacc, hacc⟩
+  cases ht : kinds[r] with
+  | false =>
+    have hu : (reader cfg kinds es r).udp = false := by rw [reader_udp cfg kinds es r hr]; exact ht
+    have hfl : d ∈ flight (reader cfg kinds es r) := List.mem_append_left _ hd
+    rw [← hinv.tcp_flow hu] at hfl
+    exact (List.mem_filter.mp hfl).1
+  | true =>
+    have huinv : UInv cfg (reader cfg kinds es r) := by
+      rw [reader_isolation cfg kinds es r hr, ht]; exact uinv_reachable cfg _
+    obtain ⟨g, hg, rfl⟩ := huinv.cbs_arrived d hd
+    exact hinv.frames_acc g (List.mem_append_left _ (huinv.arrived_sent g hg))
 
 /-- **Order and at-most-once (reliable transports).**  The callbacks of a reader — across all medias
 and formats — come in the order of the writes, and no write is delivered twice. -/
@@ -193,13 +205,55 @@ theorem discards_only_by_own_pause (cfg : Cfg) (kinds : List Bool) (es : List Ev
     (hnd : ∀ e ∈ view r es, ¬ Discards e) : (reader cfg kinds es r).disc = [] := by
   rw [reader_isolation cfg kinds es r hr, disc_eq cfg _ _ hnd]
 
-/-- **ssrc_announced_eq_carried (reliable transports).**  The SSRC of every packet handed to a callback
-is the SSRC the stream generated for that media and format — the value the SETUP response announces. -/
-theorem ssrc_announced_eq_carried (cfg : Cfg) (kinds : List Bool) (es : List Event) (r : Nat) (hr : r < kinds.length)
-    (ht : kinds[r] = false) : ∀ d ∈ (reader cfg kinds es r).cbs, cfg.ssrcOf d.media d.pt = some d.pkt.ssrc := by
+/-- **ssrc_announced_eq_carried (every transport).**  The SSRC of every packet handed to a callback is
+the SSRC the stream generated for that media and format — the value the SETUP response announces. -/
+theorem ssrc_announced_eq_carried (cfg : Cfg) (kinds : List Bool) (es : List Event) (r : Nat) (hr : r < kinds.length) :
+    ∀ d ∈ (reader cfg kinds es r).cbs, cfg.ssrcOf d.media d.pt = some d.pkt.ssrc := by
   intro d hd
-  obtain ⟨p, s, _, h2, h3, h4⟩ := no_cross_media cfg kinds es r hr ht d hd
+  obtain ⟨⟨p, s, _, h2, h3, h4⟩, _⟩ := no_cross_media cfg kinds es r hr d hd
   rw [h2, h3, h4]; rfl
+
+/-- **udp_delivery.**  For a UDP reader and every media/format `key`: the callbacks of `key` are exactly
+what the C14 receiver model, started from power-on, releases when it is run on the arrivals of `key`
+(in arrival order; `arrived` is the arrival history, every element of which is a datagram that was sent
+to this reader: any loss, duplication, reordering).  So the theorems of C14 about arrival histories are
+theorems about the callbacks of the pipeline's UDP readers. -/
+theorem udp_delivery (cfg : Cfg) (kinds : List Bool) (es : List Event) (r : Nat) (hr : r < kinds.length)
+    (ht : kinds[r] = true) (key : Nat × Nat) :
+    let x := reader cfg kinds es r
+    cbsOf key x.cbs = released x.arrived (Recv.run R0 (keyArr key 0 x.arrived)).2 ∧
+    (∀ g ∈ x.arrived, g ∈ x.wire ∧ g.deliv ∈ x.acc) := by
+  intro x
+  have hinv := invariant_reachable cfg kinds es r hr
+  have hv : VInv x := by
+    show VInv (reader cfg kinds es r)
+    rw [reader_isolation cfg kinds es r hr, ht]; exact vinv_reachable cfg _
+  have hui : UInv cfg x := by
+    show UInv cfg (reader cfg kinds es r)
+    rw [reader_isolation cfg kinds es r hr, ht]; exact uinv_reachable cfg _
+  refine ⟨hv.cbs_run key, ?_⟩
+  intro g hg
+  exact ⟨hui.arrived_sent g hg, hinv.frames_acc g (List.mem_append_left _ (hui.arrived_sent g hg))⟩
+
+/-- **udp_subsequence (from C14), partial.**  Full statement: *over UDP the callbacks of a media and
+format are an in-order subsequence of what was written*.  Proved: the sequence numbers handed to the
+callbacks of a media/format are `Accounted` in the sense of C14 — the first arrival is delivered as it
+is; from then on every step's deliveries strictly advance in the receiver's 2^15 window (`IncFrom`),
+except across a detected sender restart, and the loss it reports is the number of sequence numbers
+skipped.  Not proved here: that "advancing in the window" is "later in write order" — true when the
+writer numbers consecutively and no datagram is displaced by 2^15 positions or more (the Go oracle
+checks the subsequence on every run). -/
+theorem udp_subsequence_partial (cfg : Cfg) (kinds : List Bool) (es : List Event) (r : Nat) (hr : r < kinds.length)
+    (ht : kinds[r] = true) (key : Nat × Nat) (p : Recv.Pkt) (ps : List Recv.Pkt)
+    (harr : keyArr key 0 (reader cfg kinds es r).arrived = p :: ps) :
+    cbsOf key (reader cfg kinds es r).cbs
+      = released (reader cfg kinds es r).arrived (Recv.run R0 (p :: ps)).2 ∧
+    (Recv.run R0 (p :: ps)).2.head? = some { pkts := [p], lost := 0 } ∧
+    Recv.Accounted true p.seq (Recv.run R0 (p :: ps)).2.tail := by
+  have h := (udp_delivery cfg kinds es r hr ht key).1
+  rw [harr] at h
+  have hp2 : Recv.Pow2 Rtsp.Facts.Recv.defaultBufferSize := ⟨6, by decide, by decide⟩
+  exact ⟨h, Rtsp.Recv.C14.from_init true _ (fun _ => hp2) p ps⟩
 
 /-- **A push is refused exactly when the queue holds `cap` items**, and the queue never holds more. -/
 theorem refused_iff_full (cfg : Cfg) (kinds : List Bool) (es : List Event) (r : Nat) (hr : r < kinds.length) (m : Nat) :
@@ -242,5 +296,18 @@ example : (∀ e ∈ view 0 (exEvents.take 11 ++ [.ctl 0 .carry, .ctl 0 .consume
     (reader exCfg [false, true] (exEvents.take 11 ++ [.ctl 0 .carry, .ctl 0 .consume, .ctl 0 .carry]) 0).queue = [] ∧
     (reader exCfg [false, true] (exEvents.take 11 ++ [.ctl 0 .carry, .ctl 0 .consume, .ctl 0 .carry]) 0).cbs.map (·.wid)
       = [0, 1, 4] := by decide
+
+/-- reader 1 (UDP) of the same stream: datagram 1 (seq 31) overtakes datagram 0 (seq 30), which then
+arrives twice: the receiver delivers seq 31 at once (first packet), drops the late 30 twice -/
+def exUdp : List Event :=
+  [.ctl 1 (.setup 0), .ctl 1 .play, .write 0 (exPkt 97 30), .write 0 (exPkt 97 31), .write 0 (exPkt 97 32),
+   .ctl 1 .consume, .ctl 1 .consume, .ctl 1 .consume,
+   .ctl 1 (.arrive 1), .ctl 1 (.arrive 0), .ctl 1 (.arrive 0), .ctl 1 (.arrive 2)]
+
+example : (reader exCfg [false, true] exUdp 1).cbs.map (fun d => (d.media, d.pt, d.wid, d.pkt.seq)) =
+    [(0, 97, 1, 31), (0, 97, 2, 32)] := by decide
+/-- the hypothesis of `udp_subsequence_partial` is satisfiable -/
+example : keyArr (0, 97) 0 (reader exCfg [false, true] exUdp 1).arrived =
+    [⟨31, 0⟩, ⟨30, 1⟩, ⟨30, 2⟩, ⟨32, 3⟩] := by decide
 
 end Rtsp.C01
